@@ -40,8 +40,10 @@ def make_table(rnd, with_fail):
         ents.append((ty, addr, kind))
         addr += SIZE[ty] + rnd.choice([0, 0, 1])
     size = addr - 16 + 1
-    akind = rnd.choice(["M", "M", "CRW"])
-    line = "rt.table %d 16:%d:rw:%s %s" % (rnd.randint(0, 1), size, akind,
+    # mostly plain read-write memory; also callback-backed, write-only (block reads deliver zeroes there, which must
+    # not leak into validation) and areas whose content cannot be written back (sanitise is cut short)
+    flags, akind = rnd.choice([("rw", "M"), ("rw", "M"), ("rw", "CRW"), ("w", "M"), ("w", "CRW"), ("rw", "CR-"), ("r", "M")])
+    line = "rt.table %d 16:%d:%s:%s %s" % (rnd.randint(0, 1), size, flags, akind,
                                            "|".join("%s:%d:%s:%s" % (ty, a, default_for(ty, k), checks(ty)[k]) for ty, a, k in ents))
     return line, ents, size
 
